@@ -40,7 +40,7 @@ RULE = ('one evaluation = one explored path of the procedure (a polyhedron of co
         '(rows, verdict, decision trace); non-trivial = at least two constraints with a non-zero coefficient')
 EXPLANATION = ('constants of the constraint system are z3 variables flowing through the real elimination / pivoting code; the verdict and the witness are '
                'checked by z3 for all constants on each path; exhaustive over the stated coefficient rows unless a sample is stated')
-BUDGET_S = {'quick': 240, 'thorough': 1500}
+BUDGET_S = {'quick': 240, 'thorough': 900}
 CRANGE = 1000
 
 
